@@ -169,28 +169,26 @@ def unchunks2 {α : Type} : List (α × α) → List α
   | [] => []
   | (a, b) :: rest => a :: b :: unchunks2 rest
 
-/-- the decision task of pair `i` with its pre-drawn uniform and cached equality: component = (pair, swapped?) -/
-def pairTask (ops : Ops F64 R Q U) (us : List U) (eqs : List Bool) (i : Nat)
-    (c : ((Q × F64) × (Q × F64)) × Bool) : ((Q × F64) × (Q × F64)) × Bool :=
-  match us[i]?, eqs[i]? with
-  | some u, some eq =>
-    let (a', b', s) := ops.swapOn c.1.1 c.1.2 u (!eq)
-    ((a', b'), s)
-  | _, _ => c
+/-- the decision task of one pair: component = ((pair, its pre-drawn uniform, its cached equality), swapped?) —
+exactly the item of `chunks(2).zip(probs).zip(hameqs)` -/
+def pairTask (ops : Ops F64 R Q U)
+    (c : (((Q × F64) × (Q × F64)) × U × Bool) × Bool) : (((Q × F64) × (Q × F64)) × U × Bool) × Bool :=
+  let (a', b', s) := ops.swapOn c.1.1.1 c.1.1.2 c.1.2.1 (!c.1.2.2)
+  (((a', b'), c.1.2), s)
 
 def countTrue (l : List Bool) : Nat := (l.filter id).length
 
 /-- `parallel_perform_swaps`: all uniforms are drawn first (sequentially, from the container RNG), then the
 pair tasks run in the order `order` (one schedule of the rayon section); the sum is over the "swapped" flags.
-`zip` truncation: only the first `min(#pairs, #probs, #eqs)` pairs are visited. -/
+`zip` truncation: only the first `min(#pairs, #probs, #eqs)` pairs are visited, the rest stays as it is. -/
 def parPerformSwaps (ops : Ops F64 R Q U) (order : List Nat) (r : R) (l : List (Q × F64)) (eqs : List Bool) :
     List (Q × F64) × R × Nat :=
   if l.isEmpty then (l, r, 0)
   else
     let (us, r') := drawN ops (l.length / 2) r
-    let comps := (chunks2 l).map (fun p => (p, false))
-    let res := parSection (pairTask ops us eqs) order comps
-    (unchunks2 (res.map (·.1)) ++ l.drop (2 * (l.length / 2)), r', countTrue (res.map (·.2)))
+    let comps := ((chunks2 l).zip (us.zip eqs)).map (fun c => (c, false))
+    let res := parSection (fun _ => pairTask ops) order comps
+    (unchunks2 (res.map (·.1.1)) ++ l.drop (2 * comps.length), r', countTrue (res.map (·.2)))
 
 def maxCutoff (ops : Ops F64 R Q U) (l : List (Q × F64)) : Nat :=
   l.foldl (fun m g => max m (ops.cutoff g.1)) 0
@@ -257,7 +255,7 @@ def parTemperingStep (ops : Ops F64 R Q U) (sched : Scheduler) (k : Nat) (tc : T
   if tc.graphs.isEmpty then tc
   else temperingBody ops
     (fun c l => parSection (fun _ g => (ops.setCutoff c g.1, g.2)) (sched 1 k l.length) l)
-    (fun r l eqs => parPerformSwaps ops (sched 2 k (l.length / 2)) r l eqs)
+    (fun r l eqs => parPerformSwaps ops (sched 2 k (min (l.length / 2) eqs.length)) r l eqs)
     (performSwaps ops) tc
 
 /-- the caches hold what `make_ham_equalities` would compute now (or nothing) -/
